@@ -11,8 +11,8 @@ Open Scope Z_scope.
 Fixpoint tree_eqb (a b : tree) : bool :=
   match a, b with
   | Leaf, Leaf => true
-  | Node l lo hi m h r, Node l' lo' hi' m' h' r' =>
-      tree_eqb l l' && (lo =? lo') && (hi =? hi') && (m =? m') && (h =? h') && tree_eqb r r'
+  | Node l lo hi tg m h r, Node l' lo' hi' tg' m' h' r' =>
+      tree_eqb l l' && (lo =? lo') && (hi =? hi') && (tg =? tg') && (m =? m') && (h =? h') && tree_eqb r r'
   | _, _ => false
   end.
 
